@@ -403,6 +403,7 @@ def run(tier):
     rule_R5(res, prog, cg)
     rule_R6(res, prog)
     rule_R7(res, prog)
+    rule_R8(res, prog)
     rule_R1e(res, prog)
     return res.finish()
 
@@ -708,4 +709,39 @@ def rule_R7(res, prog):
                          "handshake that follows is registered under the client's id and overwrites the cached session of that id "
                          "with this session's secret" % (fn.relfile, ln, [p_[1] for p_ in esc[-6:-1]], esc[-1][1]), file=fn.relfile, line=ln)
         res.instance(rid, "parseClientHello:%s refused id cleared on every non-1.3 path" % ln, esc is None, finding=f_)
+    res.floor(rid, 1)
+
+
+def rule_R8(res, prog):
+    """The lifetime of a cached session runs from its registration: g_sessionTable[..].startTime - the value the expiry
+    test of matrixResumeSession reads - is written only where the entry is (re)registered with a new secret, never by
+    the resumption path itself (a resume that restarts the clock keeps a session alive for ever)."""
+    from sa import cfgutil as cu
+    rid = "C14.R8"
+    res.rule(rid, "the cache entry's startTime is written only by the registration function")
+    ALLOWED = {"matrixRegisterSession": "stores the new master secret under a fresh id"}
+    n = 0
+    for fn in sorted(prog.functions.values(), key=lambda f: f.qname):
+        if not fn.blocks or not fn.relfile.startswith("matrixssl/"):
+            continue
+        for b, ln, nd in fn.nodes():
+            w = None
+            if nd.get("k") == "bin" and nd["op"] in ("=", "+=", "-=") and any(m.get("k") == "mem" and m.get("f") == "startTime" for m in walk(nd["l"])):
+                w = "assignment"
+            if nd.get("k") == "call" and nd.get("fn") in ("psGetTime", "memcpy", "memset", "__builtin_memcpy", "__builtin_memset", "__builtin___memcpy_chk", "__builtin___memset_chk") and nd.get("a") and \
+                    any(m.get("k") == "mem" and m.get("f") == "startTime" for m in walk(nd["a"][0])):
+                w = nd["fn"]
+            if w is None:
+                continue
+            if not any(m.get("k") == "var" and m.get("n") == "g_sessionTable" for m in walk(nd)):
+                continue
+            n += 1
+            ok = fn.name in ALLOWED
+            f_ = None
+            if not ok:
+                f_ = Finding(PROP, rid, fn.name, "session start time rewritten outside registration",
+                             "%s:%s %s(): g_sessionTable[..].startTime is written (%s) outside matrixRegisterSession: the expiry test compares "
+                             "`now - startTime` with the session lifetime, so a path that refreshes it (e.g. on every successful resumption) "
+                             "lets a session be resumed indefinitely" % (fn.relfile, ln, fn.name, w), file=fn.relfile, line=ln)
+            res.instance(rid, "%s:%s startTime written (%s)" % (fn.name, ln, w), ok, finding=f_)
     res.floor(rid, 1)
